@@ -1107,6 +1107,27 @@ ares_status_t ares_dns_write_buf(const ares_dns_record_t *dnsrec,
 
   orig_len = ares_buf_len(buf);
 
+  /* Name compression offsets are recorded as positions in the buffer being
+   * written, but they must be relative to the start of the DNS message.  If
+   * the buffer already holds data (a TCP length prefix, earlier queued
+   * messages), serialize into a scratch buffer and append the result. */
+  if (orig_len != 0) {
+    ares_buf_t          *tmp = ares_buf_create();
+    const unsigned char *data;
+    size_t               data_len = 0;
+
+    if (tmp == NULL) {
+      return ARES_ENOMEM; /* LCOV_EXCL_LINE: OutOfMemory */
+    }
+    status = ares_dns_write_buf(dnsrec, tmp);
+    if (status == ARES_SUCCESS) {
+      data   = ares_buf_peek(tmp, &data_len);
+      status = ares_buf_append(buf, data, data_len);
+    }
+    ares_buf_destroy(tmp);
+    return status;
+  }
+
   status = ares_dns_write_header(dnsrec, buf);
   if (status != ARES_SUCCESS) {
     goto done;
